@@ -67,11 +67,17 @@ HPRE = '  { unsigned int sg; xt_sigma = sg; }'
 REPLAY_HEAD = '  sat_core *sat = build_sat(200); std::vector<lbool> A0 = sat->assigns; size_t ncl0 = sat->constrs.size();\n'
 
 
-def pre(maxnew_clauses, maxnew_vars, extra):
+# the expression cache gains at most the per-variable entry of one new variable and the entry of the new expression
+# when a variable is created, the literal handed out is that variable (positive)
+RES_IS_NEW = ('result_is_the_new_variable', 'self->assigns.n == __CPROVER_old(self->assigns.n) || __CPROVER_return_value.x == sp_mk_lit(__CPROVER_old(self->assigns.n), 1).x')
+EXPRS_GROWTH = ('exprs_growth_bounded', 'self->exprs.n <= __CPROVER_old(self->exprs.n) + 2')
+
+
+def pre(maxnew_clauses, maxnew_vars, extra, exprs_room=2):
     """root-level network state every construct may be called in (symbolic), plus room in the ghost log / models"""
     return [FRESH, '__exc == 0 && xt_ncl + %d <= XT_MAXCL' % maxnew_clauses,
             'sp_assigns_wf(self->assigns, XT_NV0 + %d) && self->assigns.n + %d <= XT_MAXV && self->trail_lim.n == 0 && sp_exprs_no_reified(self->exprs, XT_EXPRS_CAP - %d)' % (
-                8, maxnew_vars, maxnew_vars + 1)] + extra
+                8, maxnew_vars, exprs_room)] + extra
 
 
 def reified(formula, maxcl, nl, strict=True):
@@ -82,7 +88,7 @@ def reified(formula, maxcl, nl, strict=True):
             ('root_assignment_unchanged', UNCHANGED),
             ('conservative', '!(sg_ext(xt_sigma, %s) && (self->assigns.n == %s || sg_lit(xt_sigma, sp_mk_lit(%s, 1)) == %s)) || %s' % (A0, N0, N0, formula, LOG)),
             ('at_most_one_new_variable', 'self->assigns.n <= %s + 1' % N0),
-            ('log_bounded', 'xt_ncl >= %s && xt_ncl <= %s + %d' % (NCL0, NCL0, maxcl))]
+            ('log_bounded', 'xt_ncl >= %s && xt_ncl <= %s + %d' % (NCL0, NCL0, maxcl)), EXPRS_GROWTH, RES_IS_NEW]
 
 
 def conj_contract(nl):
@@ -108,9 +114,30 @@ def amo_contract(nl):
                  ('root_assignment_unchanged', UNCHANGED),
                  ('excludes_nothing', '!(sg_ext(xt_sigma, %s) && (self->assigns.n == %s || sg_lit(xt_sigma, sp_mk_lit(%s, 1)) == %s)) || (%s && (!%s || sg_lit(xt_sigma, %s) || self->assigns.n == %s))' % (
                      A0, N0, N0, AMO, LOG, AMO, R, N0)),
+                 ('pairwise_exact', '!(sg_ext(xt_sigma, %s) && !sp_any_root_true(%s, ls) && self->assigns.n == %s + 1 && (!sg_lit(xt_sigma, sp_mk_lit(%s, 1)) || %s)) || %s' % (A0, A0, N0, N0, AMO, LOG)),
+                 ('creates_variable_when_open', '!(sp_open_count(%s, ls) >= 2 && !sp_any_root_true(%s, ls)) || self->assigns.n == %s + 1' % (A0, A0, N0)),
                  ('true_when_satisfied_without_new_variable', '!(self->assigns.n == %s && sg_ext(xt_sigma, %s) && %s) || sg_lit(xt_sigma, %s)' % (N0, A0, AMO, R)),
                  ('at_most_one_new_variable', 'self->assigns.n <= %s + 1' % N0),
-                 ('log_bounded', 'xt_ncl >= %s && xt_ncl <= %s + %d' % (NCL0, NCL0, mc))],
+                 ('log_bounded', 'xt_ncl >= %s && xt_ncl <= %s + %d' % (NCL0, NCL0, mc)), EXPRS_GROWTH, RES_IS_NEW],
+        assigns=FRAME)
+
+
+EXO = '(sg_count(xt_sigma, ls) == 1)'
+
+
+def exo_contract(nl):
+    mc = max(nl * (nl - 1) // 2, nl) + 1
+    return Contract(
+        requires=pre(mc, 1, ['sp_lits_ok(self->assigns, ls, %d)' % nl], exprs_room=3),
+        ensures=[('noexcept', '__exc == 0'),
+                 ('result_in_range', 'sp_var(%s) < self->assigns.n' % R),
+                 ('forces_constraint', '!(sg_ext(xt_sigma, self->assigns) && %s && sg_lit(xt_sigma, %s)) || %s' % (LOG, R, EXO)),
+                 ('root_assignment_unchanged', UNCHANGED),
+                 ('excludes_nothing', '!(sg_ext(xt_sigma, %s) && (self->assigns.n == %s || sg_lit(xt_sigma, sp_mk_lit(%s, 1)) == %s)) || (%s && (!%s || sg_lit(xt_sigma, %s) || self->assigns.n == %s))' % (
+                     A0, N0, N0, EXO, LOG, EXO, R, N0)),
+                 ('true_when_satisfied_without_new_variable', '!(self->assigns.n == %s && sg_ext(xt_sigma, %s) && %s) || sg_lit(xt_sigma, %s)' % (N0, A0, EXO, R)),
+                 ('at_most_one_new_variable', 'self->assigns.n <= %s + 1' % N0),
+                 ('log_bounded', 'xt_ncl >= %s && xt_ncl <= %s + %d' % (NCL0, NCL0, mc)), ('exprs_growth_bounded', 'self->exprs.n <= __CPROVER_old(self->exprs.n) + 3'), RES_IS_NEW],
         assigns=FRAME)
 
 
@@ -177,4 +204,57 @@ def jobs(tier):
     if (sg_ext(s0, A0) && amo(s0)) { bool found = false; for (unsigned long x = 0; x < (1ul << (sat->assigns.size() - A0.size())) && !found; x++) { unsigned long s = s0 | (x << A0.size()); found = sg_ext(s, sat->assigns) && sg_sat_db(s, *sat, 0) && sg(s, ret); } if (!found) { keeps = false; sr.why += " sigma0=" + std::to_string(s0) + " satisfies at-most-one but cannot make the literal true;"; } }
   ok = sr.sound && sr.conservative && keeps; observed = "new_at_most_one(" + show(ls) + ") = " + show(ret) + ":" + sr.why; required = "literal true forces at-most-one; no satisfying assignment excluded";
 ''')
+
+    # ---- new_exct_one (pairwise at-most-one of its callee + the at-least-one clause)
+    c = exo_contract(NA)
+    c.requires += REC
+    J('new_exct_one', EXO_T, c,
+      d=dict(defines(nv0, maxv=6, maxcl=max(NA * (NA - 1) // 2, NA) + 1, maxlits=3, exprs_cap=4, str_cap=(6 if NA == 2 else 8)), CM_SQRT_UNREACHABLE=1), mem_gb=40,
+      replace=(NEW_VAR, NEW_CLAUSE, AMO_T, CONJ_T), callee={AMO_T: amo_contract(NA), CONJ_T: conj_contract(NA - 1)},
+      replay=RP_LS + '''  lit ret = sat->new_exct_one(ls);
+  auto exo = [&](unsigned long s) { std::set<size_t> t; for (auto &l : ls) if (sg(s, l)) t.insert(index(l)); return t.size() == 1; };
+  sem_result sr = check_reified(*sat, A0, ncl0, ret, exo, true);
+  bool keeps = true;
+  for (unsigned long s0 = 0; s0 < (1ul << A0.size()) && keeps; s0++)
+    if (sg_ext(s0, A0) && exo(s0)) { bool found = false; for (unsigned long x = 0; x < (1ul << (sat->assigns.size() - A0.size())) && !found; x++) { unsigned long s = s0 | (x << A0.size()); found = sg_ext(s, sat->assigns) && sg_sat_db(s, *sat, 0) && sg(s, ret); } if (!found) { keeps = false; sr.why += " sigma0=" + std::to_string(s0) + " satisfies exactly-one but cannot make the literal true;"; } }
+  ok = sr.sound && sr.conservative && keeps; observed = "new_exct_one(" + show(ls) + ") = " + show(ret) + ":" + sr.why; required = "literal true forces exactly-one; no assignment excluded";
+''')
+
+    # ---- the callees themselves: new_var and new_clause bodies against the contracts their callers assumed
+    ENQ = 'smt_sat_core_enqueue__lit__constrp'
+    CLNEW = 'smt_clause_new_clause__sat_core__vec_lit'
+    C_ENQ = Contract(requires=['sp_var(*p) < self->assigns.n'],
+                     ensures=[('post', 'sp_enqueue_post(__CPROVER_old(self->assigns), self->assigns, *p, %s)' % R)], assigns='self->assigns')
+    C_CLNEW = Contract(requires=['xt_ncl < XT_MAXCL && lits.n >= 2 && lits.n <= XT_MAXLITS'],
+                       ensures=[('logged', 'xt_ncl == __CPROVER_old(xt_ncl) + 1 && sp_clause_is(xt_cl[__CPROVER_old(xt_ncl)], lits)'), ('nonnull', '%s != 0' % R)],
+                       assigns='xt_ncl, xt_cl[xt_ncl]')
+    dnc = defines(nv0, maxv=6, maxcl=2, maxlits=4, exprs_cap=2, str_cap=4)
+    cb = Contract(requires=[FRESH, '__exc == 0 && sp_assigns_wf(self->assigns, XT_NV0 + 2) && self->constrs.n < 2'] + C_NEW_CLAUSE_BODY.requires +
+                  ['sp_rec_assigns(200, self->assigns) && sp_rec_lits(0, lits) && xt_recu(90, xt_sigma)'],
+                  ensures=[('noexcept', '__exc == 0')] + C_NEW_CLAUSE_BODY.ensures, assigns='__exc, xt_ncl, xt_cl[xt_ncl], self->assigns, self->constrs')
+    out.append(Job('sat.new_clause_body', NEW_CLAUSE, tus=TUS, contract=cb, defines=dnc, unwind=5, model_unwind=10, spec_headers=SPEC + ['sat_spec3.h'],
+                   callee_contracts={ENQ: C_ENQ, CLNEW: C_CLNEW}, replace=[ENQ, CLNEW], exceptions=True,
+                   caps={'vec_lit': 4, 'vec_us': 6, 'vec_U': 2, 'umap_str_lit': 2, 'vec_constrp': 3},
+                   abstract_fields={'smt::sat_core': ['assigns', 'trail_lim', 'constrs', 'exprs'], 'smt::constr': []}, harness_pre=HPRE, timeout=2400,
+                   replay={'driver': 'sat', 'stanza': REPLAY_HEAD + RP_LS + '''  bool ret = sat->new_clause(ls);
+  // oracle: the network after the call has exactly the models of (network before) + clause
+  bool okk = true; std::string why;
+  for (unsigned long s = 0; s < (1ul << A0.size()); s++) if (sg_ext(s, A0)) {
+    bool cl = false; for (auto &l : ls) cl = cl || sg(s, l);
+    bool after = ret && sg_ext(s, sat->assigns) && sg_sat_db(s, *sat, 0);
+    if (after != cl) { okk = false; why = " sigma=" + std::to_string(s) + " clause " + std::to_string(cl) + " network " + std::to_string(after); break; } }
+  ok = okk; observed = "new_clause(" + show(ls) + ") = " + std::to_string(ret) + ":" + why; required = "afterwards the network's models are exactly the assignments extending the old root assignment that satisfy the clause";
+'''}, bounded='<= 4 literals, <= 6 variables'))
+
+    # new_var: the callers' contract, on the real body (fields the callers never read are part of this job's state only)
+    cnv = Contract(requires=[FRESH, '__exc == 0', 'sp_assigns_wf(self->assigns, XT_NV0 + 1) && sp_exprs_no_reified(self->exprs, XT_EXPRS_CAP - 1)',
+                             'self->watches.n == 2 * self->assigns.n && self->level.n == self->assigns.n && self->reason.n == self->assigns.n'],
+                   ensures=[('noexcept', '__exc == 0')] + C_NEW_VAR.ensures +
+                   [('watch_lists_for_both_literals', 'self->watches.n == 2 * self->assigns.n && self->watches.e[self->watches.n - 1].n == 0 && self->watches.e[self->watches.n - 2].n == 0'),
+                    ('level_and_reason_initialised', 'self->level.n == self->assigns.n && self->reason.n == self->assigns.n && self->level.e[self->level.n - 1] == 0 && self->reason.e[self->reason.n - 1] == 0')],
+                   assigns='__exc, self->assigns, self->exprs, self->watches, self->level, self->reason')
+    out.append(Job('sat.new_var_body', NEW_VAR, tus=TUS, contract=cnv, defines=defines(nv0, maxv=6, maxcl=2, maxlits=2, exprs_cap=4, str_cap=4), unwind=3, model_unwind=13,
+                   spec_headers=SPEC, exceptions=True, caps={'vec_us': 6, 'umap_str_lit': 4, 'vec_vec_constrp': 12, 'vec_constrp': 7, 'vec_U': 6, 'vec_lit': 2},
+                   abstract_fields={'smt::sat_core': ['assigns', 'exprs', 'watches', 'level', 'reason'], 'smt::constr': []}, harness_pre=HPRE, timeout=1200, force_types=['std::vector<smt::lit>'],
+                   bounded='<= 5 pre-existing variables'))
     return out
